@@ -66,6 +66,9 @@ const (
 	compPC   = 14
 	compHIST = 15
 	compGW   = 16
+	compLBS  = 17
+	compPCR  = 18
+	compLast = compPCR
 	opMark   = 99
 	opRun    = 90
 )
@@ -146,12 +149,14 @@ var compNames = map[int64]string{
 	compAM: "twcc-arrivalmap", compLRU: "cc-feedback-lru", compSL: "rfc8888-streamlog", compSR: "stats-recorder",
 	compSI: "stats-interceptor", compJB: "jitterbuffer-interceptor", compFF: "flexfec-encoder", compRC: "gcc-ratecalc",
 	compLB: "gcc-leakybucket", compPC: "pacing", compHIST: "rtpfb-history", compGW: "cc-gcc-writers",
+	compLBS: "gcc-leakybucket-streams", compPCR: "pacing-rate",
 }
 
 var setNames = map[int64]string{
 	compRL: "c12rl", compRS: "c12rs", compRB: "c12rb", compNG: "c12ng", compAM: "c12am", compLRU: "c12lru",
 	compSL: "c12sl", compSR: "c12sr", compSI: "c12si", compJB: "c12jb", compFF: "c12ff", compRC: "c12rc",
 	compLB: "c12lb", compPC: "c12pc", compHIST: "c12hist", compGW: "c12gw",
+	compLBS: "c12lbs", compPCR: "c12pr",
 }
 
 var (
@@ -366,7 +371,7 @@ func main() {
 	// one case set (one Coq shard family) per component, all with the same checkers
 	sets := map[int64]*cq.Set{}
 	var order []*cq.Set
-	for comp := int64(1); comp <= compGW; comp++ {
+	for comp := int64(1); comp <= compLast; comp++ {
 		sets[comp] = &cq.Set{
 			Name: setNames[comp], Import: "IV.Check.C12Check", CaseType: "Z * list Z * list Z",
 			Checks: []string{"c12_mismatches", "c12_spec_failures"},
@@ -499,6 +504,17 @@ func generate(o *cq.Opts, r *rand.Rand, add func(c12Case, ...string)) {
 		for _, mode := range []int64{0, 1} {
 			add(fqCase(r, compLB, mode), fmt.Sprintf("mode%d", mode))
 			add(fqCase(r, compPC, mode), fmt.Sprintf("mode%d", mode))
+		}
+		// the pacers in the regime where they must drain: leaky bucket with several streams (streams
+		// removed / never added / failing while their packets are queued), directly and through the
+		// cc interceptor; pacing interceptor with the real limiter and SetRate
+		for _, via := range []int64{0, 1} {
+			for _, variant := range lbsVariants {
+				add(lbsCase(r, via, variant), fmt.Sprintf("via%d", via), "mode1")
+			}
+		}
+		for _, variant := range pcrVariants {
+			add(pcrCase(r, variant), "mode1")
 		}
 		for _, mx := range []int64{0, 1, 65535} {
 			for _, kind := range []string{"loss", "mixed", "burst"} {
